@@ -175,7 +175,26 @@ func runLib(cfg workerCfg, src string, input any, vars []any) (class, detail str
 			detail = fmt.Sprintf("stage=%s: %v\n%s", stage, r, trimStack(debug.Stack()))
 		}
 	}()
+	// Parse is proved to return within a number of driver rounds linear in the token count
+	// (C08_parse_driver_total_correct): a parse that is still running after 5 s is a hang of the parser, not a
+	// program that legitimately needs time.  The worker answers for itself and exits (Parse cannot be interrupted).
+	parsed := make(chan struct{})
+	if len(src) < 1<<16 {
+		os.Stderr.WriteString("c08-stage parse\n")
+		go func() {
+			select {
+			case <-parsed:
+			case <-time.After(5 * time.Second):
+				fmt.Fprintf(os.Stdout, "VIOL %s\n", Hexs([]byte(fmt.Sprintf("Parse did not return within 5 s for a query of %d bytes", len(src)))))
+				os.Exit(3)
+			}
+		}()
+	}
 	q, err := gojq.Parse(src)
+	close(parsed)
+	if len(src) < 1<<16 {
+		os.Stderr.WriteString("c08-stage parsed\n")
+	}
 	if err != nil {
 		pe, ok := err.(*gojq.ParseError)
 		if !ok {
